@@ -349,5 +349,9 @@ TimeoutStep == [][\A i \in Honest : (act'.name = "Timeout" /\ act'.to = i) =>
                      /\ \E m \in sent' : m.type = "rc" /\ m.signer = i /\ m.round = st'[i].round]_vars
 (* the premise of the known C07 wedge *)
 NoConflictingLocks == ~ \E i, j \in Honest : st[i].lpr # 0 /\ st[j].lpr # 0 /\ st[i].lpv # st[j].lpv
+(* ... and the wedge itself: conflicting prepared values while every correct operator has already left the rounds
+   in which they were prepared (all in the last explored round, nothing accepted, nobody decided) *)
+NoWedgeState == ~ (/\ ~NoConflictingLocks
+                   /\ \A i \in Honest : st[i].started /\ ~st[i].decided /\ st[i].round = MaxRound /\ st[i].acc = NoProp)
 TypeOK == \A i \in Honest : st[i].round \in Rounds /\ st[i].lpr \in 0..MaxRound
 =============================================================================
